@@ -19,6 +19,15 @@ def main(path):
             print(f"VIOLATION property={prop} replay={path}")
             return 1
         return 0
+    if rp is None and body.get("engine") == "repotests":
+        from .engines import repotests
+
+        fails = repotests.replay(body)
+        print(f"replayed property={prop} original_clause={clause} test={body['test']} clauses_failing_now={fails or 'none'}")
+        if fails:
+            print(f"VIOLATION property={prop} replay={path}")
+            return 1
+        return 0
     if rp is None:
         if body.get("engine") in ("hashes", "layout", "sizing"):
             return replay_trace(body)
